@@ -27,3 +27,24 @@ Check (C20_info_lists_top_level_boxes : (forall (bs : list (bytes * bytes)),
   bs <> [] ->
   Forall (fun tp => length (fst tp) = 4%nat /\ 8 + len (snd tp) < 4294967296) bs ->
   info_walk (concat (map (fun tp => build_box (fst tp) (snd tp)) bs)) = Some (expected_entries bs 0))%type).
+Check (C20_video_codec_name_parses_back : (forall c, parse_video_codec (video_codec_name c) = Some c)%type).
+Check (C20_audio_codec_name_parses_back : (forall c, parse_audio_codec (audio_codec_name c) = Some c)%type).
+Check (C20_codec_options_ignore_case : (forall s,
+  parse_video_codec (map ascii_lower s) = parse_video_codec s /\
+  parse_audio_codec (map ascii_lower s) = parse_audio_codec s)%type).
+Check (C20_dry_run_complete : (forall o, mo_dry_run o = true ->
+  (mux_command o = CliOk None 0 0 <->
+     (mo_video o <> None \/ mo_audio o <> None) /\ video_given_ok o /\ audio_given_ok o /\
+     mo_video o <> Some Missing /\ mo_audio o <> Some Missing) /\
+  (mux_command o = CliOk None 0 0 \/ mux_command o = CliFail))%type).
+Check (C20_real_run_complete : (forall o file nv na, mo_dry_run o = false ->
+  (mux_command o = CliOk (Some file) nv na <-> real_run_spec o file nv na))%type).
+Check (C20_real_run_is_deterministic_and_counts : (forall o file nv na,
+  real_run_spec o file nv na -> nv = 1 /\ na = (match mo_audio o with Some _ => 1 | None => 0 end))%type).
+Check (C20_audio_only_real_run_fails : (forall o, mo_dry_run o = false -> mo_video o = None -> mux_command o = CliFail)%type).
+Check (C20_outcome_shapes : (forall o,
+  match mux_command o with
+  | CliOk None nv na => mo_dry_run o = true /\ nv = 0 /\ na = 0
+  | CliOk (Some _) nv na => mo_dry_run o = false /\ nv <= 1 /\ na <= 1
+  | CliFail => True
+  end)%type).
